@@ -7,6 +7,8 @@ import concurrent.futures, glob, json, os, re, shutil, subprocess, sys, tempfile
 
 HERE = '/verif'
 MAN = json.load(open(f'{HERE}/MANIFEST.json'))
+if os.environ.get('TWINS_ONLY'):          # restrict to some properties (a quick look after a change to a few rules)
+    MAN['checks'] = [c for c in MAN['checks'] if c['property_id'] in os.environ['TWINS_ONLY'].split(',')]
 
 
 def run_one(path: str):
